@@ -220,8 +220,12 @@ def main(tier="quick"):
     evs = events()
     cases = []
     pid = 0
-    for backend in (("atlas",) if tier == "quick" else ("atlas", "cms_aod", "cms_miniaod")):
+    for backend in ("atlas", "cms_aod", "cms_miniaod"):
         cs, md = build_cases(tier if backend == "atlas" else "quick", backend)
+        if tier == "quick" and backend != "atlas":
+            # the CMS backends have their own ways of carrying a bank name (getByLabel, consumes<>(InputTag)): the string positions
+            # with strings of length <= 1, and the captured-constant nodes, on every backend in the quick tier as well
+            cs = [c for c in cs if (c["lit_kind"] == "str" and len(ast.literal_eval(c["literal"])) <= 1) or (c["lit_kind"] == "captured" and c["position"] in ("arith-right-minus", "echo-arg"))]
         for c in cs:
             cases.append(Case(pid, backend, c["query"], md, c))
             pid += 1
